@@ -26,6 +26,7 @@ F_RETYPE_COLUMN = 'F41'
 F_STALE_COLUMN = 'F47'
 F_CHECK_AS_INDEX = 'F54'
 F_RENAME_NAMING = 'F56'
+F_RENAME_TOGETHER = 'F58'
 
 
 def rebuilt_tables(trace):
@@ -203,6 +204,13 @@ def crash_finding(exc, muts, rebuilt):
         if any(m['t'] == 'ChangeMeta' for m in muts) or '__unnamed_constraint' in str(exc):
             return F_TABLE_LEVEL, msg
         return F_SINGLE_INDEX, msg
+    if type(exc).__name__ == 'FieldDoesNotExist':
+        # the together-lists of the stored signature still name a renamed field (finding F58)
+        for i, m in enumerate(muts):
+            if m['t'] == 'RenameField' and ("no field named '%s'" % m['old']) in str(exc) and \
+                    any(x['t'] == 'ChangeMeta' and x['model'] == m['model'] and
+                        x['prop'] in ('unique_together', 'index_together') for x in muts[i + 1:]):
+                return F_RENAME_TOGETHER, msg
     if type(exc).__name__ == 'IntegrityError':
         return 'data', msg      # existing rows violate the new constraint: not a schema question
     return None, msg
@@ -326,6 +334,73 @@ def index_family():
     ]
 
 
+def pair_family():
+    """deterministic family: every ordered pair of mutation kinds on one model, in one evolution (what the
+    backend may merge into one ALTER TABLE / one table rebuild) — delete and re-add of a name, index and
+    constraint changes next to rebuilding changes, renames next to attribute changes"""
+    def fld(name, t, related=None, **attrs):
+        return {'name': name, 'type': t, 'attrs': attrs, 'related': related}
+    spec = {'apps': [{'id': 'vapp', 'models': [
+        {'name': 'Book', 'table': 'vapp_book', 'fields': [
+            fld('id', 'AutoField', primary_key=True), fld('title', 'CharField', max_length=40),
+            fld('isbn', 'CharField', max_length=20, null=True), fld('pages', 'IntegerField', null=True),
+            fld('rating', 'IntegerField', null=True), fld('year', 'IntegerField', null=True)],
+         'unique_together': [['title', 'year']], 'index_together': [['pages', 'rating']], 'indexes': [],
+         'constraints': []}]}]}
+    cf = lambda field, initial, *attrs: {'t': 'ChangeField', 'model': 'Book', 'field': field, 'ftype': None,
+                                         'initial': initial, 'attrs': [list(a) for a in attrs]}
+    add = lambda field, ftype, initial, *attrs: {'t': 'AddField', 'model': 'Book', 'field': field, 'ftype': ftype,
+                                                 'initial': initial, 'attrs': [list(a) for a in attrs]}
+    meta = lambda prop, val: {'t': 'ChangeMeta', 'model': 'Book', 'prop': prop, 'py_value': val}
+    ops = [
+        {'t': 'DeleteField', 'model': 'Book', 'field': 'isbn'},
+        add('isbn', 'IntegerField', None, ('null', 'true')),          # valid only after the delete: a re-used name
+        add('extra', 'IntegerField', '5'),
+        add('note', 'CharField', None, ('max_length', '10'), ('null', 'true')),
+        cf('pages', None, ('db_index', 'true')),
+        cf('rating', '0', ('null', 'false')),
+        cf('title', None, ('max_length', '60')),
+        cf('year', None, ('unique', 'true')),
+        cf('year', None, ('db_column', '"yr"')),
+        meta('unique_together', []),
+        meta('index_together', []),
+        meta('unique_together', [('title', 'year'), ('pages', 'year')]),
+        {'t': 'RenameField', 'model': 'Book', 'old': 'rating', 'new': 'score', 'db_column': None, 'db_table': None},
+    ]
+    return [(spec, [a, b]) for a in ops for b in ops if a is not b]
+
+
+def optimizer_rewrote(spec, muts):
+    """did the real optimiser change the mutation list at all?  (what it leaves alone, finding F20 cannot explain)"""
+    from .. import optrig
+    try:
+        sig = dbrig.sig_from_models(dbrig.build_models(spec))
+        res, _ = optrig.real_optimize(sig, muts, passes=1)
+        if 'err' in res[0]:
+            return True
+        before = [optrig.norm_mut(sigs.abs_mutation_obj(sigs.real_mutation(m))) for m in muts]
+        return [optrig.norm_mut(m) for m in res[0]['out']] != before
+    except Exception:
+        return True
+
+
+def meta_drop_after_rebuild(muts, exc_text):
+    """finding F1's crash shape: the ChangeMeta that drops a multi-column index comes AFTER another mutation of
+    the same model in the sequence (the rebuild that lost the index); a ChangeMeta that leads its model's
+    mutations cannot be explained that way"""
+    if '__unnamed_constraint' in exc_text:
+        return True
+    seen = set()
+    for m in muts:
+        model = m.get('model') or m.get('old')
+        if m['t'] == 'ChangeMeta' and model in seen:
+            return True
+        seen.add(model)
+        if m['t'] == 'RenameModel':
+            seen.add(m['new'])
+    return False
+
+
 def family_case(spec, muts):
     sig = dbrig.sig_from_models(dbrig.build_models(spec))
     r = sigs.real_simulate(sig, 'vapp', [sigs.real_mutation(m) for m in muts])
@@ -396,18 +471,18 @@ def run(ctx):
                 'index_together, Meta.indexes) x simulation-valid sequences of 1-4 mutations, hand-written or hinted '
                 'from the target models, executed one at a time and batched on SQLite with the index bookkeeping '
                 'scanned from the database; non-trivial = the run executed at least one statement')
-    n = 350 if quick else 6000
+    n = 480 if quick else 6000
     found = {}
     schema_reqs, schema_pend = [], []
     done = 0
     tries = 0
-    family = pk_family() + index_family()
+    family = pk_family() + index_family() + pair_family()
     while done < n and tries < n * 4 and ctx.time_left() > 25:
         tries += 1
         if family:
             hinted = False
             g = family_case(*family.pop(0))
-            ctx.count('family:pk_rename/index_after_rename')
+            ctx.count('family:pk_rename/index_after_rename/pairs')
         else:
             hinted = ctx.rng.random() < 0.3
             g = gen_case(ctx.rng, hinted)
@@ -433,7 +508,11 @@ def run(ctx):
                     continue
                 step_known = 'error' not in res['stepwise'] or \
                     crash_finding(res['stepwise']['error'], muts, res['stepwise']['rebuilt'])[0] is not None
-                if mode == 'batched' and step_known and (name_reuse(muts) or touches_renamed_model(muts)):
+                if fid == F_TABLE_LEVEL and mode == 'batched' and 'error' not in res['stepwise'] and \
+                        not meta_drop_after_rebuild(muts, str(r['error'])):
+                    fid = None      # only the merged run loses the index before the ChangeMeta drops it
+                if mode == 'batched' and step_known and (name_reuse(muts) or touches_renamed_model(muts)) and \
+                        optimizer_rewrote(spec, muts):
                     fid = fid or F_OPT
                 if mode == 'batched' and step_known and fid is None and rename_with_naming(muts):
                     fid = F_RENAME_NAMING
@@ -448,7 +527,8 @@ def run(ctx):
             ctx.count('%s:%s' % (mode, 'equal' if not diffs else 'differs'))
             for fid, text in diffs:
                 if fid is None and mode == 'batched' and stepwise_explained(res['stepwise'], fresh, muts):
-                    if name_reuse(muts) or touches_renamed_model(muts) or initial_rollup(muts):
+                    if (name_reuse(muts) or touches_renamed_model(muts) or initial_rollup(muts)) and \
+                            optimizer_rewrote(spec, muts):
                         fid = F_OPT      # only the optimised run is off, in a way C03's findings explain
                     elif rename_with_naming(muts):
                         fid = F_RENAME_NAMING
